@@ -524,6 +524,16 @@ func (c *regexpSimplifyChecker) simplifyCharRange(rng syntax.Expr) string {
 	lo := rng.Args[0].Value
 	hi := rng.Args[1].Value
 	if len(lo) == 1 && len(hi) == 1 {
+		// Don't produce chars that are special inside a char class:
+		// `[+--x]` would become `[+,-x]`, where `,-x` is a new range.
+		if d := hi[0] - lo[0]; d <= 2 {
+			for i := byte(0); i <= d; i++ {
+				switch lo[0] + i {
+				case '-', ']', '\\', '^', '[':
+					return ""
+				}
+			}
+		}
 		switch hi[0] - lo[0] {
 		case 0:
 			return lo
